@@ -5,6 +5,7 @@ cd "$(dirname "$0")"
 export CARGO_NET_OFFLINE=true
 python3 tools/fpextract.py ${FPDEC_REPO:-/repo} lean/Fpdec/Gen/Consts.lean
 python3 tools/fpsites.py ${FPDEC_REPO:-/repo} lean/Fpdec/Gen/Sites.lean
+python3 tools/fpkernels.py ${FPDEC_REPO:-/repo} lean/Fpdec/Gen
 (cd lean && lake build Fpdec fpmodel)
 [ -f harness/Cargo.lock ] || cp ${FPDEC_REPO:-/repo}/Cargo.lock harness/Cargo.lock
 sed "s|@REPO@|${FPDEC_REPO:-/repo}|g" harness/Cargo.toml.in > harness/Cargo.toml
